@@ -87,6 +87,9 @@ class FLP(Adapter):
     def make_env(self, inst):
         from rl4co.envs.graph import FLPEnv
 
+        # tiny tensors: intra-op threads only cost (the .min(dim=1) of FLPEnv._step took 50 ms
+        # per call on a loaded 16-core box with the default thread pool)
+        torch.set_num_threads(1)
         return FLPEnv(generator_params={"num_loc": inst["N"], "to_choose": inst["K"]},
                       check_solution=False)
 
